@@ -189,6 +189,29 @@ def dCols {β : Type} (ops : List (β × Nat × Nat)) : Nat := (ops.map (·.2.2)
 
 end Stack
 
+
+/-! ## Multi-axis finite difference = vertical stack of single-axis operators -/
+
+section FDNd
+variable {α : Type}
+
+/-- `FiniteDifference._eval`: the `VerticalStack` of one `SingleAxisFiniteDifference` per listed axis;
+    an axis is described by `(outer, n, inner)` (sizes before / on / after it) -/
+def fdNdEval [Zero α] [Sub α] (c : FDCfg) (specs : List (Nat × Nat × Nat)) (x : V α) : V α :=
+  match specs with
+  | [] => fun _ => 0
+  | (outer, n, inner) :: rest =>
+      cat (alongAxis n (fdOutLen c n) inner (fdEval c n) x) (outer * fdOutLen c n * inner) (fdNdEval c rest x)
+
+/-- documented matrix: block column of the Kronecker-lifted banded matrices -/
+def fdNdMatrix [Zero α] [One α] [Sub α] (c : FDCfg) (specs : List (Nat × Nat × Nat)) : M α :=
+  vstackMatrix (specs.map (fun s => (kronAxis s.2.1 (fdOutLen c s.2.1) s.2.2 (fdMatrix c s.2.1), s.1 * fdOutLen c s.2.1 * s.2.2)))
+
+def fdNdRows (c : FDCfg) (specs : List (Nat × Nat × Nat)) : Nat :=
+  (specs.map (fun s => s.1 * fdOutLen c s.2.1 * s.2.2)).sum
+
+end FDNd
+
 /-! ## Circular convolution (`scico/linop/_circconv.py`), signal domain, integer centre -/
 
 section Circ
@@ -393,7 +416,7 @@ def fftfreq [HasNat α] [Sub α] [Mul α] [Div α] (n : Nat) (d : α) (i : Nat) 
 
 /-- documented signed frequency: `i/(n d)` for `i < ⌈n/2⌉`, `(i − n)/(n d)` above -/
 def signedFreq [HasNat α] [Sub α] [Mul α] [Div α] (n : Nat) (d : α) (i : Nat) : α :=
-  (if 2 * i < n + 1 then HasNat.nat i else HasNat.nat i - HasNat.nat n) / (HasNat.nat n * d)
+  (if 2 * i < n then HasNat.nat i else HasNat.nat i - HasNat.nat n) / (HasNat.nat n * d)
 
 /-- squared radial frequency (without the factor `(2π)²`) at array index `(a, b)` for
     `input_shape = (n0, n1)`, `dx = (d0, d1)`, as DOCUMENTED: axis 0 ↔ `(n0, d0)`, axis 1 ↔ `(n1, d1)` -/
